@@ -12,6 +12,9 @@ from typing import Callable, Dict, List, Optional
 from .model import AnalysisError, Model, short
 
 VERIF = Path(__file__).resolve().parent.parent
+CURRENT_DRIFT: Dict[str, Optional[int]] = {}
+CURRENT_DELETION_ONLY: set = set()
+SHAPE_DRIFT_MAX = 1
 
 
 @dataclass
@@ -23,6 +26,8 @@ class Finding:
     message: str
     line: Optional[int] = None
     path: Optional[List[str]] = None  # for path rules: entry ... offending exit
+    drift: Optional[int] = None  # statement-skeleton distance of the anchored function from the reference tree (None: new function / module-level)
+    site: str = ""  # where in /verif/nv/rules the report is made (diagnostics for the checker's own corpus statistics)
 
     def key(self) -> str:
         return f"{self.rule}|{self.func}|{' '.join(self.construct.split())}"
@@ -51,9 +56,27 @@ class RuleResult:
     exceptions_used: List[str] = field(default_factory=list)
     remarks: List[str] = field(default_factory=list)
     floor: int = 1
+    shapes: List[str] = field(default_factory=list)  # expected construct not found in any enumerated form: undecidable, not a violation
+    shape_sites: List[str] = field(default_factory=list)
 
     def ok(self, text: str):
         self.instances.append(text)
+
+    @staticmethod
+    def _site() -> str:
+        import inspect
+        f = inspect.currentframe().f_back.f_back
+        return f"{os.path.basename(f.f_code.co_filename)}:{f.f_lineno}"
+
+    def shape(self, fi, node, message: str, construct: Optional[str] = None, path=None):
+        """The construct this rule reasons about is not present in any of the forms the rule recognises (it was moved, split or rewritten).
+        That is not evidence of a violation: the instance is undecided and the check ends as an analysis error (exit 2), never as a VIOLATION."""
+        from .model import FuncInfo, Module
+        func = fi.fq if isinstance(fi, FuncInfo) else (fi.name if isinstance(fi, Module) else str(fi))
+        cons = construct if construct is not None else short(node, 160)
+        self.undecided.append(f"{func}: {cons}: {message}")
+        self.shapes.append(f"{func}: {cons}: unrecognised form ({message[:220]})")
+        self.shape_sites.append(self._site())
 
     def bad(self, fi, node, message: str, construct: Optional[str] = None, path=None):
         """Record a violation at `node` inside function `fi` (FuncInfo) or a module."""
@@ -68,8 +91,32 @@ class RuleResult:
         cons = construct if construct is not None else short(node, 160)
         self.instances.append(f"{func}: {cons} -> VIOLATED")
         self.findings.append(
-            Finding(self.rule, file, func, cons, message, getattr(node, "lineno", None), path)
+            Finding(self.rule, file, func, cons, message, getattr(node, "lineno", None), path, CURRENT_DRIFT.get(func), self._site())
         )
+
+    def bad_shape(self, fi, node, message: str, construct: Optional[str] = None, path=None):
+        """A report of the kind "the construct does not have the form that was read".  Such a rule encodes a reading of one specific function, so it is only
+        entitled to a verdict while that function still has the statement skeleton that was read (nv/refnames.json, compared on the normal form E0): then a
+        deviation inside the known form is a VIOLATION (likewise when statements were only *removed* and the module got no new function: nothing can have moved
+        elsewhere, so what the rule misses is really gone).  If the function was restructured (statements added, removed, moved, split into helpers; skeleton
+        distance above SHAPE_DRIFT_MAX) or is new, the reading no longer applies and the instance is undecided: analysis error (exit 2), not a violation."""
+        from .model import FuncInfo
+        func = fi.fq if isinstance(fi, FuncInfo) else None
+        d = CURRENT_DRIFT.get(func) if func is not None else 0
+        if func is not None and func not in CURRENT_DRIFT:
+            d = None
+        if d is not None and (d <= SHAPE_DRIFT_MAX or func in CURRENT_DELETION_ONLY):
+            self.bad(fi, node, message, construct, path)
+            self.findings[-1].site = self._site_of_caller()
+        else:
+            self.shape(fi, node, message + f" [function restructured: skeleton distance {d} from the reference]", construct, path)
+            self.shape_sites[-1] = self._site_of_caller()
+
+    @staticmethod
+    def _site_of_caller() -> str:
+        import inspect
+        f = inspect.currentframe().f_back.f_back
+        return f"{os.path.basename(f.f_code.co_filename)}:{f.f_lineno}"
 
     def unknown(self, text: str):
         self.undecided.append(text)
@@ -108,6 +155,10 @@ def run_property(prop: str, model: Model, tier: str, meta: dict, seed: int = 0,
                  evidence_dir: Optional[Path] = None, quiet: bool = False) -> int:
     """Run all rules of a property. Returns exit code (0, 1, 2)."""
     t0 = time.time()
+    CURRENT_DRIFT.clear()
+    CURRENT_DRIFT.update(getattr(model, "drift", {}) or {})
+    CURRENT_DELETION_ONLY.clear()
+    CURRENT_DELETION_ONLY.update(getattr(model, "deletion_only", set()) or set())
     out = print if not quiet else (lambda *a, **k: None)
     results: List[RuleResult] = []
     errors: List[str] = []
@@ -118,7 +169,9 @@ def run_property(prop: str, model: Model, tier: str, meta: dict, seed: int = 0,
         try:
             fn(model, rr)
             decided = len(rr.instances)
-            if decided < rr.floor:
+            for sh in rr.shapes[:3]:
+                errors.append(f"{fn.rule_id}: {sh}")
+            if decided < rr.floor and not rr.shapes:
                 raise AnalysisError(
                     f"rule {rr.rule} decided {decided} instance(s), below its confirmed floor {rr.floor} "
                     f"(undecided: {rr.undecided[:3]})"
